@@ -5,6 +5,9 @@
          hashes, caller-supplied values).
    CRt:  [input] was encoded, sent through the real library / file / database and decoded to
          [decoded]; the model must predict it.
+   CPair: CMir for encoder [a] (input -> mid) and decoder [b] (mid -> decoded), and CRt for every
+         value in [rts] (what came back through a library / file / database path and is not
+         literally [decoded]).
    CDec: a real decoder accepted or rejected [input]; the model's checks must agree.
    CFields: the leaf paths of a real struct as reflect sees them; must be the generated ones.
    Durations are printed / parsed by the real library: the table [durs] is the oracle. *)
@@ -16,6 +19,7 @@ Open Scope Z_scope.
 Inductive ccase :=
 | CMir (name : string) (durs : list (Z * bytes)) (input output : record)
 | CRt (a b : string) (durs : list (Z * bytes)) (input decoded : record)
+| CPair (a b : string) (durs : list (Z * bytes)) (input mid decoded : record) (rts : list record)
 | CDec (name : string) (durs : list (Z * bytes)) (good_addrs : list bytes) (hs : bytes) (input : record) (accepted : bool)
 | CFields (typ : string) (leaves : list path).
 
@@ -61,6 +65,20 @@ Definition ok (c : ccase) : bool :=
                    | Some r2 => rec_match r2 decoded
                    | None => false
                    end
+      | None => false
+      end
+  | CPair a b durs input mid decoded rts =>
+      match den (ds_of durs) (pd_of durs) mirrors a input with
+      | Some x =>
+          rec_match x mid &&
+          match den (ds_of durs) (pd_of durs) mirrors b mid with
+          | Some y => rec_match y decoded
+          | None => false
+          end &&
+          match den (ds_of durs) (pd_of durs) mirrors b x with
+          | Some z => rec_match z decoded && forallb (rec_match z) rts
+          | None => false
+          end
       | None => false
       end
   | CDec name durs good hs input accepted =>
